@@ -144,7 +144,10 @@ def stats_check(tr, fetches, metric, mode, fin, rows, end_seq):
             xs = [res[k] for _, res in handed if k in res]
             if not all(_num(x) for x in xs) or any(x == "NaN" for x in xs):
                 continue  # mixed / NaN: only count and the non-NaN optimum are demanded
-            exp = {"min": min(xs), "max": max(xs), "sum": math.fsum(xs)}
+            try:
+                exp = {"min": min(xs), "max": max(xs), "sum": math.fsum(xs)}
+            except OverflowError:
+                continue  # sums that overflow are not judged
             for nm, ev in exp.items():
                 got = so[nm].get(k)
                 if got is None or not _eq(got, ev, 1e-9):
